@@ -192,6 +192,12 @@ func c17Run(r *core.Run) {
 	}
 	m1 := world.GenResponse(t, o.IdP, fed, now, 1, true)
 	m1.Sign = world.PlainSigOpts(o.IdPKey, o.IdPCert)
+	// conditions that only raise warnings: validating the same message again (on the same SP, from another
+	// goroutine) must give the same outcome and the same warnings
+	m1.Assertions[0].OneTimeUse = t.Bool("c17.onetimeuse")
+	if t.Bool("c17.proxy") {
+		m1.Assertions[0].Proxy = &world.LProxy{Count: 1, Audiences: []string{"https://other.example/meta"}}
+	}
 	env.msgs["response"] = issue(m1)
 	m2 := world.GenResponse(t, o.IdP, fed, now, 2, true)
 	for _, a := range m2.Assertions {
